@@ -138,7 +138,8 @@ def step (journal : P → P) (p : P) (s : St P Row) : Op Row → St P Row
     | _ => s
   | .closeRemove => match s.phase with
     | .live => removeIfFile p (rollbackClose journal p s)
-    | _ => s
+    | .closed => removeIfFile p s                 -- closing again: `conn.close()` is a no-op, the isfile/remove runs again
+    | .fresh => s
 
 def run (journal : P → P) (p : P) (w : World P Row) (ops : List (Op Row)) : St P Row :=
   ops.foldl (step journal p) ⟨w, .fresh, [], []⟩
